@@ -43,8 +43,9 @@ for sid in sorted(os.listdir(os.path.join(V, 'seeded'))):
             'demo_without_change_exit': int(re.search(r'demo_without=(\d+)', line).group(1)) if line else None,
             'pinned_suite_with_change_exit': int(re.search(r'suite=(\d+)', line).group(1)) if line else None,
             'how': 'tools/seed_eval.sh: demo run in the scratch worktree with the change and with it '
-                   'stashed; pinned suite run with the change; patch applied to /repo, quick checks '
-                   'run with --no-evidence, then `git -C /repo checkout -- .`',
+                   'reverted; pinned suite run with the change; patch applied to /repo (first batch: in '
+                   'place, then `git -C /repo checkout -- .`; later: to a scratch copy of its working '
+                   'tree via VERIF_REPO) and the quick checks run with --no-evidence',
         },
         'checks_run': checks,
     }
